@@ -58,7 +58,7 @@ func ipText(class string, r *rand.Rand) string {
 	case "mc6":
 		return []string{"ff02::1:2", "FF02::1:2", "ff01::1"}[r.Intn(3)]
 	case "garbage":
-		return []string{"notanip", "300.1.1.1", "10.0.0", "2001:db8::g", "1.2.3.4.5"}[r.Intn(5)]
+		return []string{"notanip", "300.1.1.1", "10.0.0", "2001:db8::g", "1.2.3.4.5", "fe80::1%lo%lo", "10.0.0.1%lo%eth0", "::%%lo", "fe80::1%25lo%lo"}[r.Intn(9)]
 	}
 	return ""
 }
